@@ -31,7 +31,8 @@ LEVEL_NOTE = ("Trusted: Coq kernel, extraction, the table<->Griffe-object / tabl
               "and the spec with `object` spelled out is what (O) compares with real __mro__. Modelled rather than verified: classes are identified with "
               "their paths (the `seen` tuple holds paths); name resolution of base expressions (Expr.canonical_path, alias resolution) is exercised "
               "by the source stream but not modelled -- the model starts from resolved bases. All 14 theorems are closed under the global context.")
-MODEL = ("Model.C07_mro", "run_C07")
+MODEL = ("Model.C07_bases", "run_C07b")          # run_C07b falls through to Model.C07_mro.run_C07 for the table-level requests
+MODEL_TARGETS = ["Model/C07_bases.vo"]
 COQ_TARGETS = ["Proofs/C07_mro.vo"]
 RULE = ("(1) every hierarchy of N<=5 (quick) / N<=6 (thorough) classes where class i takes 0..3 ordered distinct bases among classes 0..i-1 "
         "(depth-first, each new class checked once; classes below a TypeError class are kept as 'cannot exist'); "
@@ -151,14 +152,23 @@ def observe(cls):
 
 # ------------------------------------------------------------------------------------------------ authority: real classes
 
-def oracle_table(table):
+def oracle_table(table, n_ext=None):
     """Build the table with type(). Per class: None (CPython cannot create it / depends on a cycle) or
-    {'mro': [ids, without self and object], 'attrs': {name: owner id}}. Returns None when a base is external."""
+    {'mro': [ids, without self and object], 'attrs': {name: owner id}}.
+    n_ext=None (legacy streams): returns None when a base is external (no authority).
+    n_ext=k: base ids n..n+k-1 are external root classes (typing.Generic and the like: classes CPython knows and the
+    collection does not; they stay in 'mro'), id n+k is an explicitly written `object`."""
     n = len(table)
-    if any(b >= n for _, bases, _ in table for b in bases):
-        return None
     built = {}
     idof = {}
+    if n_ext is None:
+        if any(b >= n for _, bases, _ in table for b in bases):
+            return None
+    else:
+        for j in range(n_ext):
+            built[n + j] = type(f"X{j}", (), {})
+            idof[built[n + j]] = n + j
+        built[n + n_ext] = object
     progress = True
     while progress:
         progress = False
@@ -190,7 +200,7 @@ def oracle_table(table):
                 assert getattr(k, name) == (owner, name)
                 attrs[name] = owner
             else:
-                assert not hasattr(k, name)
+                assert not hasattr(k, name) or name.startswith("__")
         out.append({"mro": [idof[c] for c in k.__mro__[1:-1]], "attrs": attrs})
     return out
 
@@ -268,30 +278,39 @@ def check_classes(ctx, stream, table, objs, which, model_rows, extra_case=None):
         direct_check(ctx, case, table, c, obs, o)
 
 
-def direct_check(ctx, case, table, c, obs, o):
-    """Griffe's observable answers for class c against the real class (o is None: CPython cannot create it)."""
+def direct_eval(table, c, obs, o):
+    """Griffe's observable answers for class c against the real class (o is None: CPython cannot create it).
+    Returns the list of disagreements (empty: the property holds on this class).  Ids >= len(table) in o['mro'] are
+    classes the collection does not hold (externals): they are not expected in Griffe's answer."""
     paths = [row[0] for row in table]
+    n = len(table)
     g = obs["mro"]
     if o is None:
         if g[0] != "err":
-            ctx.property_failure(case, {"what": "CPython rejects the hierarchy (TypeError / cycle), Griffe does not report it as uncomputable", "griffe": g})
-        elif obs.get("inherited"):
-            ctx.property_failure(case, {"what": "inherited members offered for an uncomputable MRO", "griffe": obs["inherited"]})
-        return
-    want = [paths[i] for i in o["mro"]]
+            return [{"what": "CPython rejects the hierarchy (TypeError / cycle), Griffe does not report it as uncomputable", "griffe": g}]
+        if obs.get("inherited"):
+            return [{"what": "inherited members offered for an uncomputable MRO", "griffe": obs["inherited"]}]
+        return []
+    want = [paths[i] for i in o["mro"] if i < n]
     if g != ["ok", want]:
-        ctx.property_failure(case, {"what": "MRO differs", "griffe": g, "cpython": want})
-        return
+        return [{"what": "MRO differs", "griffe": g, "cpython": want}]
     if "members_exc" in obs:
-        return
+        return []
+    out = []
     own = set(table[c][2])
     want_inh = sorted([name, f"{paths[c]}.{name}", f"{paths[owner]}.{name}", True] for name, owner in o["attrs"].items() if name not in own)
     if obs["inherited"] != want_inh:
-        ctx.property_failure(case, {"what": "inherited members differ from attribute lookup through __mro__", "griffe": obs["inherited"], "cpython": want_inh})
+        out.append({"what": "inherited members differ from attribute lookup through __mro__", "griffe": obs["inherited"], "cpython": want_inh})
     want_all = sorted([name, "own", f"{paths[c]}.{name}", True, True] if owner == c else [name, "inherited", f"{paths[c]}.{name}", f"{paths[owner]}.{name}", True]
                       for name, owner in o["attrs"].items())
     if obs["all"] != want_all:
-        ctx.property_failure(case, {"what": "all_members / __getitem__ differ from attribute lookup (shadowing, path or origin)", "griffe": obs["all"], "cpython": want_all})
+        out.append({"what": "all_members / __getitem__ differ from attribute lookup (shadowing, path or origin)", "griffe": obs["all"], "cpython": want_all})
+    return out
+
+
+def direct_check(ctx, case, table, c, obs, o):
+    for detail in direct_eval(table, c, obs, o):
+        fail(ctx, case, detail)
 
 
 def run_tables(ctx, stream, tables, all_classes=True):
@@ -379,7 +398,8 @@ def stream_exhaustive(ctx, maxn, with_model=True):
                 if pyobj_model != expect_obj:
                     ctx.tie_failure("oracle", "cpython_mro_obj(model) vs type().__mro__ including object", {"model": pyobj_model, "cpython": expect_obj}, case)
             if (py is None and g[0] != "err") or (py is not None and g_ids != ["ok", py]):
-                ctx.property_failure(case, {"what": "MRO differs from CPython's", "griffe": g, "cpython": "TypeError" if py is None else [f"m.K{i}" for i in py]})
+                fail(ctx, case, {"what": "MRO differs" if py is not None else "CPython rejects the hierarchy (TypeError / cycle), Griffe does not report it as uncomputable",
+                                 "griffe": g, "cpython": "TypeError" if py is None else [f"m.K{i}" for i in py]})
         buf.clear()
 
     for node in exhaustive_nodes(maxn):
@@ -398,7 +418,7 @@ def random_members(rng):
     return sorted(rng.sample(POOL, rng.randint(1, 4)))
 
 
-def random_ordered_table(rng, nmax=8, modules=None):
+def random_ordered_table(rng, nmax=8, modules=None, rename=True):
     n = rng.randint(2, nmax)
     nmod = modules or rng.randint(1, 3)
     mod_of = sorted(rng.randrange(nmod) for _ in range(n))
@@ -414,7 +434,14 @@ def random_ordered_table(rng, nmax=8, modules=None):
             if bases and rng.random() < 0.04:
                 bases.insert(rng.randrange(len(bases) + 1), rng.choice(bases))     # class C(A, A)
         table.append([f"m{mod_of[i]}.K{i}", bases, random_members(rng)])
+    if rename and modules is None and rng.random() < 0.5:
+        # module names that are string prefixes / extensions of each other (m vs m_b vs m1 vs m10)
+        names = rng.sample(DIRECT_MODNAMES, nmod)
+        table = [[names[int(p.split(".")[0][1:])] + "." + p.split(".")[1], b, m] for p, b, m in table]
     return table
+
+
+DIRECT_MODNAMES = ["m", "m_b", "m1", "m10", "mod"]
 
 
 # ------------------------------------------------------------------------------------------------ (3) packages from source
@@ -537,7 +564,7 @@ def stream_source(ctx, count, with_model=True):
     root.mkdir(parents=True, exist_ok=True)
     for k in range(count):
         pkg = f"c07p{ctx.seed % 100000}x{k}"
-        table = random_ordered_table(ctx.rng, nmax=7)
+        table = random_ordered_table(ctx.rng, nmax=7, rename=False)
         table = [[f"{pkg}.{p}" if ctx.rng.random() < 0.8 else f"{pkg}.{p.split('.')[0]}.H{i}.K{i}", b, m] for i, (p, b, m) in enumerate(table)]
         # the source stream keeps bases distinct half of the time so that importable packages dominate
         files, alias_views, styles = render_package(ctx.rng, pkg, table)
@@ -738,7 +765,7 @@ def render_history(rng, tag, n_pkgs):
     Cross-package bases are written with from-import, re-export through the base package's __init__, or attribute style."""
     n = rng.randint(n_pkgs + 1, 6)
     pk = sorted([rng.randrange(n_pkgs) for _ in range(n - n_pkgs)] + list(range(n_pkgs)))
-    pkgs = [f"c07h{tag}p{j}" for j in range(n_pkgs)]
+    pkgs = [f"c07h{tag}p" + ["", "_x", "2"][j] for j in range(n_pkgs)]        # names extending each other
     table = []
     for i in range(n):
         if i == 0:
@@ -896,6 +923,881 @@ def stream_histories(ctx, count, with_model=True):
                                       "this_order": obs[c], "base_first_order": finals[ref_order][c]})
 
 
+# ------------------------------------------------------------------------------------------------ failing inputs: report + shrink
+
+SHRINK_BUDGET = {"left": 6}        # failing inputs shrunk per run (each costs a few hundred evaluations at most)
+
+
+def fail(ctx, case, detail, finding=None):
+    """Report a failing input; table-shaped and program-shaped cases are first shrunk (greedy, implementation vs authority
+    only) to a smaller input on which the same kind of disagreement persists."""
+    if finding is None and SHRINK_BUDGET["left"] > 0 and not getattr(ctx, "_no_shrink", False):
+        try:
+            small = shrink_case(case, detail)
+        except Exception:  # noqa: BLE001   shrinking must never hide the original failing input
+            small = None
+        if small is not None:
+            SHRINK_BUDGET["left"] -= 1
+            ctx.count("failing_inputs_shrunk")
+            case, detail = small
+    ctx.property_failure(case, detail, finding=finding)
+
+
+def table_failures(table, c, n_ext=None):
+    """Implementation vs authority for one class of a directly built table."""
+    orc = oracle_table(table, n_ext)
+    if orc is None:
+        return []
+    objs = build_direct(table)
+    return direct_eval(table, c, observe(objs[c]), orc[c])
+
+
+def remove_class(table, k):
+    out = []
+    for i, (path, bases, members) in enumerate(table):
+        if i == k:
+            continue
+        out.append([path, [b - 1 if b > k else b for b in bases if b != k], members])
+    return out
+
+
+def shrink_table(table, c, what):
+    """Greedy: drop classes, base edges, members, then put everything in one module, while class c still shows `what`."""
+    def bad(t, cc):
+        try:
+            return any(d["what"] == what for d in table_failures(t, cc))
+        except Exception:  # noqa: BLE001
+            return False
+    if not bad(table, c):
+        return None
+    steps = 0
+    changed = True
+    while changed and steps < 400:
+        changed = False
+        for k in reversed(range(len(table))):
+            if k == c:
+                continue
+            t2 = remove_class(table, k)
+            c2 = c - 1 if k < c else c
+            steps += 1
+            if bad(t2, c2):
+                table, c, changed = t2, c2, True
+                break
+        if changed:
+            continue
+        for i, (path, bases, members) in enumerate(table):
+            for j in range(len(bases)):
+                t2 = [list(r) for r in table]
+                t2[i] = [path, bases[:j] + bases[j + 1:], members]
+                steps += 1
+                if bad(t2, c):
+                    table, changed = t2, True
+                    break
+            if changed:
+                break
+            for j in range(len(members)):
+                t2 = [list(r) for r in table]
+                t2[i] = [path, bases, members[:j] + members[j + 1:]]
+                steps += 1
+                if bad(t2, c):
+                    table, changed = t2, True
+                    break
+            if changed:
+                break
+    t2 = [["m." + p.rsplit(".", 1)[1], b, m] for p, b, m in table]
+    if len({r[0] for r in t2}) == len(t2) and bad(t2, c):
+        table = t2
+    return table, c
+
+
+def shrink_case(case, detail):
+    what = detail.get("what")
+    if what is None:
+        return None
+    if "prog" in case:
+        return shrink_program_case(case, detail)
+    if "files" in case or "load_order" in case or case.get("stream") in (None, "raw-merge"):
+        return None
+    if "prog" in case:
+        return _replay_program(ctx, case)
+    if "bases_of" in case:
+        table = [[f"m.K{i}", list(bs), []] for i, bs in enumerate(case["bases_of"])]
+    elif "table" in case:
+        table = case["table"]
+    else:
+        return None
+    if any(b >= len(table) for _, bs, _ in table for b in bs):
+        return None
+    r = shrink_table(table, case["class"], what)
+    if r is None:
+        return None
+    t2, c2 = r
+    d2 = next(d for d in table_failures(t2, c2) if d["what"] == what)
+    new_case = {"stream": case.get("stream"), "table": t2, "class": c2, "shrunk_from": {"classes": len(table), "bases": sum(len(r[1]) for r in table)}}
+    return new_case, d2
+
+
+# ------------------------------------------------------------------------------------------------ (8) programs: the bases as they are written
+
+MODPOOL = ["shapes", "shapes_base", "sh", "core", "core2", "m1", "m10", "sub", "sub.mod", "sub.mod_x", "subs", "sub.deep.leaf"]
+RELATED = [("shapes_base", "shapes"), ("shapes", "sh"), ("shapes_base", "sh"), ("core2", "core"), ("m10", "m1"), ("subs", "sub"),
+           ("sub.mod_x", "sub.mod")]          # (module of the base, module of the subclass): the second name is a string prefix of the first
+XSTYLES2 = ["from", "from-as", "import-dotted", "from-parent-import-mod", "relative", "import-as", "reexport", "wildcard"]
+EXT_PATHS = [["typing", "Generic"]]
+OBJECT_PATH = ["object"]
+
+
+def gen_program(rng, tag, gaps=True):
+    """A package as a specification: modules (dotted names: names extending each other, underscores, nested packages), classes
+    in module order, and for every base how it is written (import style, subscript, assignment alias), plus Generic[T] /
+    explicit object bases and members (own, or imported into the class body)."""
+    k = rng.choice([1, 2, 2, 3, 3, 4])
+    names = []
+    if k >= 2 and rng.random() < 0.5:
+        names = list(rng.choice(RELATED))
+    while len(names) < k:
+        m = rng.choice(MODPOOL)
+        if m not in names:
+            names.append(m)
+    if rng.random() < 0.5:
+        rng.shuffle(names)
+    names.sort(key=lambda m: m.count("."))            # a package before its submodules (stable: otherwise random order)
+    n = rng.randint(2, 7)
+    mod_of = sorted(rng.randrange(len(names)) for _ in range(n))
+    classes = []
+    holder = None
+    hid = 0
+    for i in range(n):
+        if i == 0:
+            bases = []
+        else:
+            kb = rng.choice([0, 1, 1, 2, 2, 2, 3, 3])
+            bases = rng.sample(range(i), min(kb, i))
+            if rng.random() < 0.7:
+                bases.sort(reverse=True)
+        # holder classes group consecutive classes of one module
+        if holder is not None and (mod_of[i] != mod_of[i - 1] or rng.random() < 0.5):
+            holder = None
+        if holder is None and rng.random() < 0.15:
+            holder = hid
+            hid += 1
+        specs = []
+        for b in bases:
+            specs.append({"b": b, "style": rng.choice(XSTYLES2), "sub": rng.choice([None, "int", "int", "T"]),
+                          "assign": (rng.choice([1, 1, 2]) if gaps and rng.random() < 0.06 else 0)})
+        generic = None
+        if rng.random() < 0.22:
+            pos = len(specs) if (not gaps or rng.random() < 0.85) else rng.randrange(len(specs) + 1)
+            generic = {"form": rng.choice(["Generic", "Generic", "typing.Generic"]), "pos": pos}
+        obj = None
+        if rng.random() < 0.07:
+            obj = "first" if (gaps and specs and rng.random() < 0.2) else "last"
+        members = random_members(rng)
+        amembers = []
+        if mod_of[i] > 0 and members and rng.random() < 0.12:
+            amembers = [rng.choice(members)]
+        classes.append({"mod": mod_of[i], "holder": holder, "bases": specs, "generic": generic, "object": obj,
+                        "members": members, "amembers": amembers})
+    return {"pkg": f"c07g{tag}", "mods": names, "classes": classes}
+
+
+def norm_holders(classes):
+    """A holder class groups consecutive classes of one module; a holder id that comes back later (after shrinking) is a new holder."""
+    out = []
+    closed = set()
+    fresh = 1000
+    prev = (None, None)
+    ren = {}
+    for c in classes:
+        h = c["holder"]
+        if h is not None:
+            if prev == (c["mod"], h):
+                h2 = ren.get(h, h)
+            else:
+                if h in closed:
+                    ren[h] = fresh
+                    fresh += 1
+                closed.add(h)
+                h2 = ren.get(h, h)
+        else:
+            h2 = None
+        prev = (c["mod"], h)
+        out.append({**c, "holder": h2})
+    return out
+
+
+def _bx(parts):
+    e = ["n", parts[0]]
+    for a in parts[1:]:
+        e = ["a", e, a]
+    return e
+
+
+def render_program(prog):
+    """Specification -> source files + what the source means: the heap of objects the loader should build (for the Coq model of
+    base resolution) and the class statements.  Anything the specification asks for that Python cannot express (a subscript on a
+    class that is not generic, a style that does not apply between two modules) is normalised away here, so every specification
+    -- also a shrunk one -- renders to a program."""
+    pkg, mods, classes = prog["pkg"], prog["mods"], prog["classes"]
+    n = len(classes)
+    P = [[pkg] + m.split(".") for m in mods]
+    is_pkg = [any(o.startswith(m + ".") for o in mods) for m in mods]
+    classes = norm_holders(classes)
+    subs = []
+    for c in classes:
+        subs.append(c.get("generic") is not None or any(b.get("sub") == "T" and subs[b["b"]] for b in c["bases"]))
+    top = [f"H{c['holder']}" if c["holder"] is not None else f"K{i}" for i, c in enumerate(classes)]
+    cpath = [P[c["mod"]] + ([f"H{c['holder']}"] if c["holder"] is not None else []) + [f"K{i}"] for i, c in enumerate(classes)]
+    heap_mod = {j: [] for j in range(len(mods))}       # explicit entries of module j, in first-match order
+    heap_by_mod = {}
+    wild = {j: [] for j in range(len(mods))}
+    typing_names = {j: set() for j in range(len(mods))}
+    imports = {j: [] for j in range(len(mods))}
+    blocks = {j: [] for j in range(len(mods))}
+    init_lines = {j: [] for j in range(len(mods))}     # re-exports in the top __init__, after `import pkg.<module j>`
+    heap_init = []
+    styles = []
+    xclasses = []
+    helper_needed = any(c["amembers"] for c in classes)
+
+    def add_import(j, line, entries):
+        if line not in imports[j]:
+            imports[j].append(line)
+            heap_mod[j] += entries
+
+    def package_of(j):
+        return P[j] if is_pkg[j] else P[j][:-1]
+
+    def head_for(j, b, style):
+        """How module j names the module-level object leading to class b (K<b> or its holder)."""
+        jb = classes[b]["mod"]
+        Pm, t = P[jb], top[b]
+        dotted = ".".join(Pm)
+        if style == "relative":
+            if package_of(j) == Pm and j != jb:
+                add_import(j, f"from . import {t}", [[P[j] + [t], ["alias", Pm + [t]]]])
+                return [t], "relative-from-package"
+            if package_of(j) == Pm[:-1] and not is_pkg[j]:
+                if len(styles) % 2:
+                    add_import(j, f"from .{Pm[-1]} import {t}", [[P[j] + [t], ["alias", Pm + [t]]]])
+                    return [t], "relative-from"
+                add_import(j, f"from . import {Pm[-1]}", [[P[j] + [Pm[-1]], ["alias", Pm]]])
+                return [Pm[-1], t], "relative-import-mod"
+            style = "from"
+        if style == "from":
+            add_import(j, f"from {dotted} import {t}", [[P[j] + [t], ["alias", Pm + [t]]]])
+            return [t], style
+        if style == "from-as":
+            add_import(j, f"from {dotted} import {t} as Z{b}", [[P[j] + [f"Z{b}"], ["alias", Pm + [t]]]])
+            return [f"Z{b}"], style
+        if style == "import-dotted":
+            add_import(j, f"import {dotted}", [[P[j] + [pkg], ["alias", [pkg]]]])
+            return Pm + [t], style
+        if style == "from-parent-import-mod":
+            add_import(j, f"from {'.'.join(Pm[:-1])} import {Pm[-1]}", [[P[j] + [Pm[-1]], ["alias", Pm]]])
+            return [Pm[-1], t], style
+        if style == "import-as":
+            add_import(j, f"import {dotted} as q{jb}", [[P[j] + [f"q{jb}"], ["alias", Pm]]])
+            return [f"q{jb}", t], style
+        if style == "reexport":
+            line = f"from {dotted} import {t}"
+            if line not in init_lines[jb]:
+                init_lines[jb].append(line)
+                heap_init.append([[pkg, t], ["alias", Pm + [t]]])
+            add_import(j, f"from {pkg} import {t}", [[P[j] + [t], ["alias", [pkg, t]]]])
+            return [t], style
+        if style == "wildcard":
+            if jb not in wild[j]:
+                wild[j].append(jb)
+            return [t], style
+        raise ValueError(style)
+
+    open_holder = {}
+    for i, c in enumerate(classes):
+        j = c["mod"]
+        pre = []                                        # module-level assignment lines standing before the class (or its holder)
+        texts, bexprs = [], []
+        for pos, spec in enumerate(c["bases"]):
+            b = spec["b"]
+            if classes[b]["mod"] == j:
+                if classes[b]["holder"] is None or classes[b]["holder"] == c["holder"]:
+                    parts = [f"K{b}"]
+                else:
+                    parts = [top[b], f"K{b}"]
+                st = "same-module" + ("/holder" if classes[b]["holder"] is not None else "")
+            else:
+                head, st = head_for(j, b, spec["style"])
+                parts = head + ([f"K{b}"] if classes[b]["holder"] is not None else [])
+                if classes[b]["holder"] is not None:
+                    st += "/nested"
+            text, bx = ".".join(parts), _bx(parts)
+            same_holder = classes[b]["mod"] == j and classes[b]["holder"] is not None and classes[b]["holder"] == c["holder"]
+            for lvl in range(0 if same_holder else (spec.get("assign") or 0)):
+                name = f"B{i}_{pos}" + ("" if lvl == 0 else f"_{lvl}")
+                pre.append(f"{name} = {text}")
+                heap_mod[j].append([P[j] + [name], ["attr", bx]])
+                text, bx = name, ["n", name]
+                st += "+assign"
+            # the subscript goes on last (`B = K0` then `B[int]`): whether a base is a generic alias is then visible in its syntax
+            if spec.get("sub") and subs[b]:
+                text, bx = f"{text}[{spec['sub']}]", ["s", bx]
+                st += "+sub"
+                if spec["sub"] == "T":
+                    typing_names[j].add("Generic")
+            styles.append(st)
+            texts.append(text)
+            bexprs.append(bx)
+        if c.get("generic"):
+            g = c["generic"]
+            pos = min(g["pos"], len(texts))
+            if g["form"] == "Generic":
+                typing_names[j].add("Generic")
+                texts.insert(pos, "Generic[T]")
+                bexprs.insert(pos, ["s", ["n", "Generic"]])
+            else:
+                typing_names[j].add("typing")
+                texts.insert(pos, "typing.Generic[T]")
+                bexprs.insert(pos, ["s", ["a", ["n", "typing"], "Generic"]])
+            styles.append("Generic" + ("" if pos == len(texts) - 1 else "/not-last"))
+        if c.get("object"):
+            if c["object"] == "first" and texts:
+                texts.insert(0, "object")
+                bexprs.insert(0, ["n", "object"])
+                styles.append("object/first")
+            else:
+                texts.append("object")
+                bexprs.append(["n", "object"])
+                styles.append("object/last")
+        nested = c["holder"] is not None
+        ind = "    " if nested else ""
+        lines = []
+        if nested and open_holder.get(j) != c["holder"]:
+            lines.append(f"class H{c['holder']}:")
+            heap_mod[j].append([P[j] + [f"H{c['holder']}"], ["obj"]])
+        open_holder[j] = c["holder"]
+        lines.append(f"{ind}class K{i}({', '.join(texts)}):" if texts else f"{ind}class K{i}:")
+        heap_mod[j].append([cpath[i], ["cls", i]])
+        malias = []
+        for name in c["members"]:
+            if name in c["amembers"] and j > 0:
+                lines.append(f"{ind}    from {'.'.join(P[0])} import helper as {name}")
+                heap_mod[j].append([cpath[i] + [name], ["alias", P[0] + ["helper"]]])
+                malias.append([name, P[0] + ["helper"]])
+            elif name[0] == "f":
+                lines.append(f"{ind}    def {name}(self): return ({i}, '{name}')")
+                heap_mod[j].append([cpath[i] + [name], ["obj"]])
+            elif name[0] == "N":
+                lines.append(f"{ind}    class {name}: pass")
+                heap_mod[j].append([cpath[i] + [name], ["obj"]])
+            else:
+                lines.append(f"{ind}    {name} = ({i}, '{name}')")
+                heap_mod[j].append([cpath[i] + [name], ["obj"]])
+        if not c["members"]:
+            lines.append(f"{ind}    pass")
+        # assignments of a nested class' bases stand before its holder; a holder's body must stay contiguous
+        if nested and blocks[j] and blocks[j][-1][0] == c["holder"]:
+            blocks[j][-1][1][:0] = pre
+            blocks[j][-1][2].extend(lines)
+        else:
+            blocks[j].append([c["holder"] if nested else None, pre, lines])
+        scope = P[j] + ([f"H{c['holder']}"] if nested else [])
+        xclasses.append([cpath[i], scope, bexprs, list(c["members"]), malias])
+    files = {}
+    heap = [[[pkg], ["mod"]]]
+    if mods:
+        heap.append([[pkg, pkg], ["alias", [pkg]]])
+    init = []
+    seen_pk = set()
+    for j, m in enumerate(mods):
+        parts = m.split(".")
+        for d in range(1, len(parts)):
+            pk = ".".join(parts[:d])
+            if pk not in mods and pk not in seen_pk:
+                seen_pk.add(pk)
+                files[pk.replace(".", "/") + "/__init__.py"] = ""
+                heap.append([[pkg] + parts[:d], ["mod"]])
+        head = []
+        ents = [[P[j], ["mod"]]]
+        if "Generic" in typing_names[j]:
+            head += ["from typing import Generic, TypeVar", "T = TypeVar('T')"]
+            ents += [[P[j] + ["Generic"], ["alias", ["typing", "Generic"]]], [P[j] + ["TypeVar"], ["alias", ["typing", "TypeVar"]]], [P[j] + ["T"], ["obj"]]]
+        if "typing" in typing_names[j]:
+            head += ["import typing"] + ([] if "Generic" in typing_names[j] else ["T = typing.TypeVar('T')"])
+            ents += [[P[j] + ["typing"], ["alias", ["typing"]]]] + ([] if "Generic" in typing_names[j] else [[P[j] + ["T"], ["obj"]]])
+        head += [f"from {'.'.join(P[w])} import *" for w in wild[j]]
+        head += imports[j]
+        if j == 0 and helper_needed:
+            head += ["def helper(self=None): return 'helper'"]
+            ents.append([P[0] + ["helper"], ["obj"]])
+        ents += heap_mod[j]
+        have = {tuple(e[0]) for e in ents}
+        for w in wild[j]:                                       # names a wildcard import brings (no __all__: every public module-level name)
+            for (pth, kind) in list(heap_by_mod[w]):
+                if len(pth) == len(P[w]) + 1 and not pth[-1].startswith("_") and kind[0] != "mod":
+                    if tuple(P[j] + [pth[-1]]) not in have:
+                        have.add(tuple(P[j] + [pth[-1]]))
+                        ents.append([P[j] + [pth[-1]], ["alias", pth]])
+        heap_by_mod[j] = ents
+        heap += ents
+        body = []
+        for _, pre, lines in blocks[j]:
+            body += pre + lines
+        src = "\n".join(head + [""] + body) + "\n"
+        files[m.replace(".", "/") + ("/__init__.py" if is_pkg[j] else ".py")] = src
+        init.append(f"import {'.'.join(P[j])}")
+        init += init_lines[j]
+    heap[2:2] = heap_init
+    files["__init__.py"] = "\n".join(init) + "\n"
+    return {"files": files, "heap": heap, "xclasses": xclasses, "paths": [".".join(p) for p in cpath], "styles": styles,
+            "request": ["prog", [heap, xclasses, EXT_PATHS, OBJECT_PATH]]}
+
+
+def observe2(cls):
+    """observe() plus what the base-resolution model predicts: resolved_bases (path, kind) and where inherited aliases finally lead."""
+    out = observe(cls)
+    try:
+        with watchdog():
+            out["resolved"] = [[b.path, "cls" if b.is_class else ("mod" if b.is_module else "other")] for b in cls.resolved_bases]
+            out["inherited_final"] = sorted([name, a.final_target.path] for name, a in cls.inherited_members.items())
+    except BaseException as e:  # noqa: BLE001
+        if isinstance(e, KeyboardInterrupt):
+            raise
+        out["resolved_exc"] = type(e).__name__ + ": " + str(e)[:200]
+    return out
+
+
+def real_import_prog(root, pkg, paths):
+    """Import the generated package for real: per class its __bases__ and __mro__ as dotted paths ('typing.Generic', 'builtins.object' kept)."""
+    sys.dont_write_bytecode = True          # generated files are rewritten within one second: never trust a cached .pyc
+    sys.path.insert(0, str(root))
+    try:
+        importlib.invalidate_caches()
+        try:
+            importlib.import_module(pkg)
+        except TypeError as e:
+            return "TypeError", str(e)
+        out = []
+        for path in paths:
+            p = path.split(".")
+            d = 1
+            while ".".join(p[:d + 1]) in sys.modules:
+                d += 1
+            k = sys.modules[".".join(p[:d])]
+            for attr in p[d:]:
+                k = getattr(k, attr)
+            nm = lambda x: f"{x.__module__}.{x.__qualname__}"
+            out.append({"bases": [nm(x) for x in k.__bases__], "mro": [nm(x) for x in k.__mro__], "vars": sorted(vars(k))})
+        return "ok", out
+    finally:
+        sys.path.remove(str(root))
+
+
+def forget_modules(pkg):
+    for name in [m for m in sys.modules if m == pkg or m.startswith(pkg + ".")]:
+        del sys.modules[name]
+
+
+def hierarchy_of(pb, c):
+    """c and every class reachable through Python's bases (ids of the program's own classes only)."""
+    n = len(pb)
+    seen, todo = [], [c]
+    while todo:
+        k = todo.pop()
+        if k in seen or k >= n:
+            continue
+        seen.append(k)
+        todo += list(pb[k] or [])
+    return seen
+
+
+def gap_F1(pb, orc, c):
+    """KnownGap for C07-F1: somewhere in the hierarchy of c a class the collection does not hold (typing.Generic, object) stands
+    elsewhere than last -- in a bases list or in the linearisation CPython computes.  (Python mirror of Coq's
+    [ext_not_last]; when every external class is last-only, dropping it commutes with the C3 merge: C07_hidden_last_only.)"""
+    n = len(pb)
+    for k in hierarchy_of(pb, c):
+        bs = pb[k] or []
+        if any(b >= n for b in bs[:-1]):
+            return True                                  # written before another base
+        for b in bs:
+            if b >= n:
+                continue
+            if orc[b] is None:                            # a base CPython cannot even create: no linearisation to look at
+                if any(x >= n for kk in hierarchy_of(pb, b) for x in (pb[kk] or [])):
+                    return True
+                continue
+            if any(x >= n for x in orc[b]["mro"][:-1]):   # inside a linearisation that is merged here
+                return True
+    return False
+
+
+def eval_program(ctx, prog, root, mout, inspected=True, stream="program"):
+    """One generated program: static load (and inspected load) against the real classes; mout = the model's rows (or None).
+    Returns the list of (case, detail, finding) disagreements between Griffe and CPython."""
+    import griffe
+    R = render_program(prog)
+    pkg = prog["pkg"]
+    import shutil
+    shutil.rmtree(root / pkg, ignore_errors=True)
+    (root / pkg).mkdir(parents=True)
+    for rel, src in R["files"].items():
+        (root / pkg / rel).parent.mkdir(parents=True, exist_ok=True)
+        (root / pkg / rel).write_text(src)
+    paths = R["paths"]
+    n = len(paths)
+    members = [x[3] for x in R["xclasses"]]
+    base_case = {"stream": stream, "prog": prog, "files": R["files"]}
+    fails = []
+    for st in R["styles"]:
+        ctx.observe("base_spelling", st)
+    ctx.observe("program_modules", ",".join(sorted(prog["mods"])) if len(prog["mods"]) <= 2 else f"{len(prog['mods'])} modules")
+    # ---- authority: the real import, and type() over Python's bases
+    status, real = real_import_prog(root, pkg, paths)
+    ext_names = {".".join(p): n + j for j, p in enumerate(EXT_PATHS)}
+    o_idx = n + len(EXT_PATHS)
+    ids = {p: i for i, p in enumerate(paths)}
+
+    def to_id(name, explicit_object):
+        if name in ids:
+            return ids[name]
+        if name in ext_names:
+            return ext_names[name]
+        if name == "builtins.object":
+            return o_idx if explicit_object else None
+        return -1
+    pb = None
+    if mout is not None:
+        pb = [row[3][0] if row[3] else None for row in mout]
+        if any(b is None for b in pb):
+            ctx.tie_failure("harness", "a generated base expression does not denote a class in the model's Python reading", {"files": R["files"], "pbases": pb})
+            return fails
+    if status == "ok":
+        ctx.observe("program_import", "ok")
+        want_obj = [any(e == ["n", "object"] for e in x[2]) for x in R["xclasses"]]
+        rb = [[to_id(b, want_obj[i]) for b in r["bases"]] for i, r in enumerate(real)]
+        rb = [[b for b in bs if b is not None] for bs in rb]
+        if pb is not None and rb != pb:
+            ctx.tie_failure("oracle", "python bases (model: assignment followed, externals known) vs real __bases__", {"model": pb, "cpython": rb, "files": R["files"]})
+        if pb is None:
+            pb = rb
+    else:
+        ctx.observe("program_import", "TypeError")
+        if pb is None:
+            forget_modules(pkg)
+            return fails
+    ptable = [[paths[i], pb[i], members[i]] for i in range(n)]
+    orc = oracle_table(ptable, n_ext=len(EXT_PATHS))
+    if status == "ok":
+        for i, r in enumerate(real):
+            got = [to_id(x, False) for x in r["mro"][1:-1]]
+            if orc[i] is None or got != orc[i]["mro"]:
+                ctx.tie_failure("harness", "generated source does not mean the table", {"class": i, "import": r["mro"], "table": orc[i], "files": R["files"]})
+    elif all(o is not None for o in orc):
+        ctx.tie_failure("harness", "generated package fails to import although its table is consistent", {"files": R["files"], "error": real})
+    # ---- static load
+    try:
+        with watchdog(60):
+            loaded = griffe.load(pkg, search_paths=[str(root)])
+            objs = [loaded[p[len(pkg) + 1:]] for p in paths]
+    except BaseException as e:  # noqa: BLE001
+        if isinstance(e, KeyboardInterrupt):
+            raise
+        forget_modules(pkg)
+        return [({**base_case, "class": 0}, {"what": "griffe.load raised on a valid generated package", "griffe": f"{type(e).__name__}: {e}"}, None)]
+    gtable = [[paths[i], [], members[i]] for i in range(n)]
+    amember = [{a[0]: ".".join(a[1]) for a in x[4]} for x in R["xclasses"]]
+    for c in range(n):
+        case = {**base_case, "class": c, "agent": "visitor"}
+        obs = observe2(objs[c])
+        o = orc[c]
+        vis = None if o is None else {"mro": [i for i in o["mro"] if i < n], "attrs": o["attrs"]}
+        details = direct_eval(gtable, c, obs, vis)
+        if not details and o is not None and "inherited_final" in obs:
+            want_final = sorted([name, amember[owner].get(name, f"{paths[owner]}.{name}")] for name, owner in o["attrs"].items() if name not in members[c])
+            if obs["inherited_final"] != want_final:
+                details.append({"what": "an inherited alias does not finally lead to the object CPython finds", "griffe": obs["inherited_final"], "cpython": want_final})
+        if "resolved_exc" in obs:
+            details.append({"what": "resolved_bases raised", "griffe": obs["resolved_exc"]})
+        ctx.evaluations += 0
+        nontrivial = len(pb[c]) >= 2 or obs["mro"][0] != "ok" or bool(obs.get("inherited"))
+        ctx.case({"stream": stream, "pkg_spec": prog, "class": c}, nontrivial)
+        ctx.observe("stream", stream)
+        ctx.observe("griffe_result", obs["mro"][0] if obs["mro"][0] != "err" else "err:" + obs["mro"][1])
+        ctx.observe("n_bases", len(pb[c]))
+        repro = False
+        if mout is not None:
+            row = mout[c]
+            repro = check_program_row(ctx, case, row, obs, o, paths, n, c)
+            f2 = any(mout[k][10] for k in hierarchy_of(pb, c))
+        else:
+            f2 = any(b.get("assign") for k in hierarchy_of(pb, c) for b in prog["classes"][k]["bases"])
+        f1 = gap_F1(pb, orc, c)
+        ctx.observe("program_gap", ("assign " if f2 else "") + ("external-not-last" if f1 else "") or "none")
+        for d in details:
+            finding = None
+            if mout is None:
+                if f1 or f2:
+                    ctx.count("search_mode_skipped_in_known_gap")
+                    continue
+            elif repro and f2:
+                finding = "C07-F2"
+            elif repro and f1:
+                finding = "C07-F1"
+            fails.append((case, d, finding))
+    # ---- the same package analysed dynamically (inspection): bases come from __bases__, not from expressions
+    if inspected and status == "ok":
+        fails += eval_inspected(ctx, prog, R, root, real, orc, pb, mout is not None)
+    forget_modules(pkg)
+    return fails
+
+
+def check_program_row(ctx, case, row, obs, o, paths, n, c):
+    """(C) and (O) for one class of a program; returns True when the model reproduces both Griffe's and CPython's answers."""
+    ok = True
+    ids = {p: i for i, p in enumerate(paths)}
+    m_res = [[p, {"cls": "cls", "mod": "mod"}.get(k, "other")] for p, k in row[0]]
+    if "resolved" in obs and m_res != obs["resolved"]:
+        ok = False
+        ctx.tie_failure("correspondence", "resolved_bases(model: canonical_path + get_member + final_target) vs Class.resolved_bases",
+                        {"model": m_res, "impl": obs["resolved"], "per_base": row[1]}, case)
+    for r in row[1]:
+        ctx.observe("resolution_outcome", r[0] if r[0] != "found" else "found:" + r[2])
+    g_impl = obs["mro"]
+    g_ids = ["ok", [ids.get(p, -1) for p in g_impl[1]]] if g_impl[0] == "ok" else g_impl
+    if row[4] != g_ids:
+        ok = False
+        ctx.tie_failure("correspondence", "griffe_mro(model, program) vs Class.mro()", {"model": row[4], "impl": g_impl}, case)
+    if "members_exc" in obs:
+        ctx.tie_failure("correspondence", "inherited_members raised", obs["members_exc"], case)
+        return False
+    inh_m = sorted([name, a[1], a[2], bool(a[4])] for name, a in row[7])
+    if inh_m != obs["inherited"]:
+        ok = False
+        ctx.tie_failure("correspondence", "inherited_members(model, program) vs Class.inherited_members", {"model": inh_m, "impl": obs["inherited"]}, case)
+    fin_m = sorted([name, a[5][1] if a[5][0] == "found" else a[5][0]] for name, a in row[7])
+    if "inherited_final" in obs and fin_m != obs["inherited_final"]:
+        ok = False
+        ctx.tie_failure("correspondence", "final target of inherited aliases (model) vs Alias.final_target", {"model": fin_m, "impl": obs["inherited_final"]}, case)
+    all_m = sorted([e[0], "own", e[2], True, True] if e[1] == "own" else [e[0], "inherited", e[2][1], e[2][2], True] for e in row[8])
+    if all_m != obs["all"]:
+        ok = False
+        ctx.tie_failure("correspondence", "all_members(model, program) vs Class.all_members / __getitem__", {"model": all_m, "impl": obs["all"]}, case)
+    # (O)
+    o_idx = n + len(EXT_PATHS)
+    expect = ["err", "inconsistent"] if o is None else ["ok", [c] + o["mro"] + [o_idx]]
+    if row[5] != expect:
+        ok = False
+        ctx.tie_failure("oracle", "cpython_mro_ext(model) vs type().__mro__ with externals and explicit object", {"model": row[5], "cpython": expect}, case)
+    if o is not None:
+        ga = {name: (v[0] if v else None) for name, v in row[9]}
+        for name in ga:
+            if ga[name] != o["attrs"].get(name):
+                ok = False
+                ctx.tie_failure("oracle", "cpython_getattr_ext(model) vs vars() along __mro__", {"name": name, "model": ga[name], "cpython": o["attrs"].get(name)}, case)
+    return ok
+
+
+def eval_inspected(ctx, prog, R, root, real, orc, pb, with_model):
+    """The package is already imported; let Griffe inspect it and compare with the very classes it inspected."""
+    import griffe
+    pkg = prog["pkg"]
+    paths = R["paths"]
+    n = len(paths)
+    base_case = {"stream": "program-inspected", "prog": prog, "files": R["files"], "agent": "inspector"}
+    try:
+        with watchdog(60):
+            loaded = griffe.load(pkg, search_paths=[str(root)], force_inspection=True)
+            objs = [loaded[p[len(pkg) + 1:]] for p in paths]
+    except BaseException as e:  # noqa: BLE001
+        if isinstance(e, KeyboardInterrupt):
+            raise
+        return [({**base_case, "class": 0}, {"what": "griffe.load(force_inspection=True) raised on an importable generated package", "griffe": f"{type(e).__name__}: {e}"}, None)]
+    gm = []
+    for i, ob in enumerate(objs):
+        names = sorted(x for x in ob.members if not x.startswith("__"))     # dunder entries (__dict__, __orig_bases__...) follow the same rule; kept out of the type() authority
+        gm.append(names)
+        pool_g = [x for x in names if x in POOL]
+        pool_r = [x for x in real[i]["vars"] if x in POOL]
+        if pool_g != pool_r:
+            ctx.tie_failure("harness", "inspected members of a class differ from vars() on the generated names (outside C07: membership is C17's)",
+                            {"class": paths[i], "griffe": pool_g, "cpython": pool_r, "files": R["files"]})
+    # the table the inspector should have produced: CPython's own bases, Griffe's own member names
+    table = [[paths[i], [b for b in pb[i] if b < n + len(EXT_PATHS)], gm[i]] for i in range(n)]
+    outs = ctx.model([["class", table, c] for c in range(n)]) if with_model else [None] * n
+    otab = oracle_table(table, n_ext=len(EXT_PATHS))
+    fails = []
+    for c in range(n):
+        case = {**base_case, "class": c}
+        obs = observe(objs[c])
+        if "inherited" in obs:
+            obs["inherited"] = [e for e in obs["inherited"] if not e[0].startswith("__")]
+            obs["all"] = [e for e in obs["all"] if not e[0].startswith("__")]
+        o = otab[c]
+        details = direct_eval(table, c, obs, o)
+        ctx.case({"stream": "program-inspected", "pkg_spec": prog, "class": c}, len(table[c][1]) >= 2 or bool(obs.get("inherited")))
+        ctx.observe("stream", "program-inspected")
+        repro = False
+        if outs[c] is not None:
+            repro = check_inspected_row(ctx, case, outs[c], obs, o, paths, c)
+        f1 = gap_F1(pb, orc, c)
+        for d in details:
+            finding = None
+            if not with_model:
+                if f1:
+                    continue
+            elif repro and f1:
+                finding = "C07-F1"
+            fails.append((case, d, finding))
+    return fails
+
+
+def check_inspected_row(ctx, case, mrow, obs, o, paths, c):
+    ok = True
+    ids = {p: i for i, p in enumerate(paths)}
+    g_model, py_model, _orderedb, inh_model, all_model, getattr_model, _pyobj = mrow
+    g_impl = obs["mro"]
+    g_ids = ["ok", [ids.get(p, -1) for p in g_impl[1]]] if g_impl[0] == "ok" else g_impl
+    if g_model != g_ids:
+        ok = False
+        ctx.tie_failure("correspondence", "griffe_mro(model) vs Class.mro() of an inspected class", {"model": g_model, "impl": g_impl}, case)
+    if "members_exc" in obs:
+        ctx.tie_failure("correspondence", "inherited_members raised (inspected)", obs["members_exc"], case)
+        return False
+    inh_m = sorted([name, a[1], a[2], bool(a[4])] for name, a in inh_model)
+    if inh_m != obs["inherited"]:
+        ok = False
+        ctx.tie_failure("correspondence", "inherited_members(model) vs inspected Class.inherited_members", {"model": inh_m, "impl": obs["inherited"]}, case)
+    expect = ["err", "inconsistent"] if o is None else ["ok", [c] + o["mro"]]
+    if py_model != expect:
+        ok = False
+        ctx.tie_failure("oracle", "cpython_mro(model, externals as root classes) vs type().__mro__", {"model": py_model, "cpython": expect}, case)
+    return ok
+
+
+def stream_programs(ctx, count, with_model=True, gaps=True, inspected=True):
+    root = ctx.scratch / "prog"
+    root.mkdir(parents=True, exist_ok=True)
+    progs = [gen_program(ctx.rng, f"{ctx.seed % 100000}x{k}", gaps=gaps) for k in range(count)]
+    mouts = [None] * count
+    if with_model:
+        mouts = ctx.model([render_program(p)["request"] for p in progs])
+    for prog, mout in zip(progs, mouts):
+        if mout == ["bad-input"]:
+            ctx.tie_failure("harness", "the model rejects a generated program", prog)
+            continue
+        for case, detail, finding in eval_program(ctx, prog, root, mout, inspected=inspected):
+            fail(ctx, case, detail, finding)
+
+
+class QuietCtx:
+    """Evaluations made while shrinking: same model and scratch directory, nothing recorded."""
+    def __init__(self, ctx):
+        self._ctx = ctx
+        self.evaluations = 0
+        self.scratch = ctx.scratch
+        self.rng = ctx.rng
+        self.seed = ctx.seed
+    def model(self, values):
+        return self._ctx.model(values)
+    def observe(self, *a, **k): pass
+    def case(self, *a, **k): pass
+    def count(self, *a, **k): pass
+    def tie_failure(self, *a, **k): pass
+
+
+def prog_variants(prog, keep):
+    """Smaller / plainer specifications, most drastic first.  keep = index of the class that showed the failure."""
+    cl = prog["classes"]
+    n = len(cl)
+    def with_classes(new, mods=None):
+        return {"pkg": prog["pkg"], "mods": list(mods if mods is not None else prog["mods"]), "classes": new}
+    for k in reversed(range(n)):
+        if k == keep:
+            continue
+        new = []
+        for i, c in enumerate(cl):
+            if i == k:
+                continue
+            bs = [{**b, "b": b["b"] - 1 if b["b"] > k else b["b"]} for b in c["bases"] if b["b"] != k]
+            new.append({**c, "bases": bs})
+        yield with_classes(new), (keep - 1 if k < keep else keep)
+    for i, c in enumerate(cl):
+        for j in range(len(c["bases"])):
+            yield with_classes([{**x, "bases": x["bases"][:j] + x["bases"][j + 1:]} if ii == i else x for ii, x in enumerate(cl)]), keep
+        if c.get("generic"):
+            yield with_classes([{**x, "generic": None} if ii == i else x for ii, x in enumerate(cl)]), keep
+        if c.get("object"):
+            yield with_classes([{**x, "object": None} if ii == i else x for ii, x in enumerate(cl)]), keep
+        if c.get("holder") is not None:
+            yield with_classes([{**x, "holder": None} if ii == i else x for ii, x in enumerate(cl)]), keep
+        for j, b in enumerate(c["bases"]):
+            for key, plain in (("assign", 0), ("sub", None), ("style", "from")):
+                if b.get(key) != plain:
+                    nb = c["bases"][:j] + [{**b, key: plain}] + c["bases"][j + 1:]
+                    yield with_classes([{**x, "bases": nb} if ii == i else x for ii, x in enumerate(cl)]), keep
+        if c["amembers"]:
+            yield with_classes([{**x, "amembers": []} if ii == i else x for ii, x in enumerate(cl)]), keep
+        for j in range(len(c["members"])):
+            ms = c["members"][:j] + c["members"][j + 1:]
+            yield with_classes([{**x, "members": ms, "amembers": [a for a in x["amembers"] if a in ms]} if ii == i else x for ii, x in enumerate(cl)]), keep
+    if len(prog["mods"]) > 1:
+        used = sorted({c["mod"] for c in cl})
+        if len(used) < len(prog["mods"]):
+            ren = {m: x for x, m in enumerate(used)}
+            yield with_classes([{**c, "mod": ren[c["mod"]]} for c in cl], [prog["mods"][m] for m in used]), keep
+        yield with_classes([{**c, "mod": 0} for c in cl], prog["mods"][:1]), keep
+    for j, m in enumerate(prog["mods"]):
+        plain = f"m{j}"
+        if m != plain and plain not in prog["mods"]:
+            yield with_classes(cl, prog["mods"][:j] + [plain] + prog["mods"][j + 1:]), keep
+
+
+SHRINK_CTX = {}
+
+
+def shrink_program_case(case, detail):
+    ctx = SHRINK_CTX.get("ctx")
+    if ctx is None:
+        return None
+    q = QuietCtx(ctx)
+    root = ctx.scratch / "shrink"
+    root.mkdir(parents=True, exist_ok=True)
+    what, agent = detail["what"], case.get("agent")
+    with_model = SHRINK_CTX.get("with_model", True)
+    counter = [0]
+
+    def bad(prog, keep):
+        counter[0] += 1
+        p2 = {**prog, "pkg": f"{case['prog']['pkg']}s{counter[0]}"}
+        try:
+            mout = q.model([render_program(p2)["request"]])[0] if with_model else None
+            if mout == ["bad-input"]:
+                return None
+            res = eval_program(q, p2, root, mout, inspected=(agent == "inspector"), stream=case.get("stream", "program"))
+        except Exception:  # noqa: BLE001
+            return None
+        for cs, d, finding in res:
+            if finding is None and d["what"] == what and cs.get("agent") == agent:
+                return cs, d
+        return None
+
+    prog, keep = case["prog"], case["class"]
+    best = bad(prog, keep)
+    if best is None:
+        return None
+    changed = True
+    while changed and counter[0] < 250:
+        changed = False
+        for p2, k2 in prog_variants(prog, keep):
+            r = bad(p2, k2)
+            if r is not None:
+                prog, keep, best, changed = p2, r[0]["class"], r, True
+                break
+    cs, d = best
+    cs = {**cs, "prog": {**prog, "pkg": cs["prog"]["pkg"]}, "shrunk_from": {"classes": len(case["prog"]["classes"]), "modules": len(case["prog"]["mods"]), "evaluations": counter[0]}}
+    return cs, d
+
+
 # ------------------------------------------------------------------------------------------------ entry points
 
 def explore(ctx):
@@ -905,6 +1807,9 @@ def explore(ctx):
         nonlocal t0
         ctx.notes.append(f"{name}: {time.time() - t0:.1f}s")
         t0 = time.time()
+    SHRINK_CTX.update(ctx=ctx, with_model=True)
+    SHRINK_BUDGET["left"] = 6
+    replay_findings(ctx)
     corpus = json.loads((Path(__file__).resolve().parents[2] / "corpus" / "C07" / "classic.json").read_text())["cases"]
     run_tables(ctx, "corpus", [c["table"] for c in corpus])
     stream_merge(ctx)
@@ -925,6 +1830,8 @@ def explore(ctx):
     lap("cyclic-source")
     stream_histories(ctx, ctx.budget(24, 300))
     lap("load-history")
+    stream_programs(ctx, ctx.budget(350, 4000))
+    lap("program (visitor + inspector)")
     if not ctx.quick:
         sample = [["class", random_ordered_table(ctx.rng, nmax=5), 1] for _ in range(25)] + \
                  [["class", random_arbitrary_table(ctx.rng), 0] for _ in range(15)] + \
@@ -959,6 +1866,9 @@ def search(ctx):
             return
     stream_source(ctx, 150, with_model=False)
     if not ctx.prop_failures:
+        SHRINK_CTX.update(ctx=ctx, with_model=False)
+        stream_programs(ctx, 300, with_model=False)
+    if not ctx.prop_failures:
         stream_histories(ctx, 60, with_model=False)
 
 
@@ -970,6 +1880,62 @@ def replay(ctx, data):
         shutil.rmtree(ctx.scratch, ignore_errors=True)
 
 
+def _replay_program(ctx, case):
+    import griffe
+    prog = case["prog"]
+    R = render_program(prog)
+    root = ctx.scratch / "replay"
+    pkg = prog["pkg"]
+    for rel, src in sorted(R["files"].items()):
+        (root / pkg / rel).parent.mkdir(parents=True, exist_ok=True)
+        (root / pkg / rel).write_text(src)
+        print(f"--- {pkg}/{rel}\n{src}")
+    c = case["class"]
+    path = R["paths"][c]
+    print("class  :", path, "| agent:", case.get("agent"))
+    status, real = real_import_prog(root, pkg, R["paths"])
+    try:
+        loaded = griffe.load(pkg, search_paths=[str(root)], force_inspection=(case.get("agent") == "inspector"))
+        obs = observe2(loaded[path[len(pkg) + 1:]])
+        print("griffe :", {k: v for k, v in obs.items() if k in ("mro", "resolved", "inherited", "members_exc")})
+    except Exception as e:  # noqa: BLE001
+        print("griffe.load raised:", type(e).__name__, e)
+    print("cpython:", real if status != "ok" else {"bases": real[c]["bases"], "mro": real[c]["mro"][1:-1]})
+    forget_modules(pkg)
+    return 0
+
+
+def replay_findings(ctx):
+    """Replay the witnesses of findings/C07.json on the implementation, every run."""
+    import griffe
+    fp = Path(__file__).resolve().parents[2] / "findings" / "C07.json"
+    if not fp.exists():
+        return
+    root = ctx.scratch / "witness"
+    root.mkdir(parents=True, exist_ok=True)
+    for f in json.loads(fp.read_text()).get("findings", []):
+        w = f.get("witness") or {}
+        if "source" not in w:
+            continue
+        mod = "c07w" + f["id"].replace("-", "").lower()
+        (root / f"{mod}.py").write_text(w["source"])
+        try:
+            m = griffe.load(mod, search_paths=[str(root)])
+            got = [k.name for k in m[w["class"]].mro()]
+        except Exception as e:  # noqa: BLE001
+            got = f"{type(e).__name__}"
+        sys.dont_write_bytecode = True
+        sys.path.insert(0, str(root))
+        try:
+            importlib.invalidate_caches()
+            real = importlib.import_module(mod)
+            want = [k.__name__ for k in getattr(real, w["class"]).__mro__[1:-1] if k.__module__ == mod]
+        finally:
+            sys.path.remove(str(root))
+            sys.modules.pop(mod, None)
+        ctx.witness(f["id"], got != want and got == w.get("griffe_mro") and want == w.get("cpython_mro"))
+
+
 def _replay(ctx, data):
     case = data.get("failing_input") or {}
     if "lists" in case:
@@ -977,6 +1943,8 @@ def _replay(ctx, data):
         print("griffe :", griffe_merge(case["lists"]))
         print("cpython:", stdlib_merge(case["lists"]))
         return 0
+    if "prog" in case:
+        return _replay_program(ctx, case)
     if "bases_of" in case:
         table = [[f"m.K{i}", list(bs), []] for i, bs in enumerate(case["bases_of"])]
     elif "table" in case:
